@@ -264,10 +264,90 @@ type difference struct {
 	Other    *obs
 }
 
+// pending is one refuting observation waiting for classification.
+type pending struct {
+	Kind   string // nondeterministic | location-dependent | in-process
+	Target string
+	Label  string // option set label
+	Plain  bool   // nondeterministic: shown with the plain option set too
+	Cls    string // file class
+	Tail   string // what varied / which step (other kinds)
+	What   string
+	W      map[string]interface{}
+}
+
+func (c *c19) pend(p *pending) {
+	c.mu.Lock()
+	c.pendings = append(c.pendings, p)
+	c.mu.Unlock()
+}
+
+// finalize turns the observations into violations.  A (target, file class)
+// shown to be nondeterministic by any experiment gets ONE signature,
+// C19:nondeterministic:<target>[:<option>]:<file class>; differences of the
+// same file class seen by the location, dirty -out and in-process experiments
+// are booked under it (map iteration orders can be heavily biased, so a few
+// re-runs in place cannot always tell the two apart).
+func (c *c19) finalize() {
+	type ndInfo struct {
+		plain  bool
+		labels []string
+	}
+	nd := map[string]*ndInfo{}
+	for _, p := range c.pendings {
+		if p.Kind != "nondeterministic" {
+			continue
+		}
+		k := p.Target + "|" + p.Cls
+		if nd[k] == nil {
+			nd[k] = &ndInfo{}
+		}
+		if p.Plain {
+			nd[k].plain = true
+		}
+		nd[k].labels = append(nd[k].labels, p.Label)
+	}
+	canonical := func(p *pending) string {
+		info := nd[p.Target+"|"+p.Cls]
+		if info.plain {
+			return "C19:nondeterministic:" + p.Target + ":" + p.Cls
+		}
+		sort.Strings(info.labels)
+		return "C19:nondeterministic:" + p.Target + ":" + info.labels[0] + ":" + p.Cls
+	}
+	type out struct {
+		sig string
+		p   *pending
+	}
+	var outs []out
+	for _, p := range c.pendings {
+		switch {
+		case nd[p.Target+"|"+p.Cls] != nil && p.Kind != "nondeterministic":
+			p.What = "(seen by the " + p.Kind + " experiment, " + p.Tail + ") " + p.What
+			c.run.Add("differences_booked_under_nondeterminism_of_the_same_file_class", 1)
+			fallthrough
+		case p.Kind == "nondeterministic":
+			outs = append(outs, out{canonical(p), p})
+		default:
+			outs = append(outs, out{"C19:" + p.Kind + ":" + p.Target + ":" + p.Tail, p})
+		}
+	}
+	sort.SliceStable(outs, func(i, j int) bool {
+		if outs[i].sig != outs[j].sig {
+			return outs[i].sig < outs[j].sig
+		}
+		return outs[i].p.Kind == "nondeterministic" && outs[j].p.Kind != "nondeterministic"
+	})
+	for _, o := range outs {
+		c.run.Violation(o.sig, o.p.What, o.p.W)
+	}
+}
+
 type c19 struct {
-	run *ev.Run
-	bin string
-	mu  sync.Mutex
+	run      *ev.Run
+	bin      string
+	mu       sync.Mutex
+	pendings []*pending
 	// counters
 	rejected map[string]int
 }
@@ -557,9 +637,22 @@ func (c *c19) runJob(j *job) {
 		run.Add("compilations_rejected_in_reference_location(C11's business)", 1)
 	}
 
-	report := func(kind, sigTail, what string, d *difference, aDir string) {
-		sig := "C19:" + kind + ":" + sigTail
-		run.Violation(sig, what, c.witness(j, d, aDir))
+	// observations are classified at the end of the run (finalize): a file
+	// class shown to be nondeterministic anywhere is not also reported as
+	// location / sequence dependent
+	reportND := func(what string, d *difference, aDir string) {
+		cls := "acceptance"
+		if d.Rel != "" {
+			cls = fileClass(j.Tgt.Name, d.Rel)
+		}
+		c.pend(&pending{Kind: "nondeterministic", Target: j.Tgt.Name, Label: j.Set.Label, Plain: j.Set.Label == "" || c.plainAlsoDiffers(j), Cls: cls, What: what, W: c.witness(j, d, aDir)})
+	}
+	report := func(kind, varied, what string, d *difference, aDir string) {
+		cls := "acceptance"
+		if d.Rel != "" {
+			cls = fileClass(j.Tgt.Name, d.Rel)
+		}
+		c.pend(&pending{Kind: kind, Target: j.Tgt.Name, Label: j.Set.Label, Cls: cls, Tail: varied, What: what, W: c.witness(j, d, aDir)})
 	}
 
 	// repetitions in the same location, same arguments
@@ -573,15 +666,7 @@ func (c *c19) runJob(j *job) {
 			continue
 		}
 		if d := compare(ref, o); d != nil {
-			cls := "acceptance"
-			if d.Rel != "" {
-				cls = fileClass(j.Tgt.Name, d.Rel)
-			}
-			tail := j.Tgt.Name
-			if j.Set.Label != "" && !c.plainAlsoDiffers(j) {
-				tail += ":" + j.Set.Label
-			}
-			report("nondeterministic", tail+":"+cls, fmt.Sprintf("repetition %d of the same compilation (same cwd, same arguments) differs from repetition 0: %s %s", k, d.Kind, d.Rel), d, refKeep)
+			reportND(fmt.Sprintf("repetition %d of the same compilation (same cwd, same arguments) differs from repetition 0: %s %s", k, d.Kind, d.Rel), d, refKeep)
 			os.RemoveAll(outA)
 			break
 		}
@@ -610,7 +695,7 @@ func (c *c19) runJob(j *job) {
 			}
 			var o2 *obs
 			var d2 *difference
-			for again := 0; again < 3 && d2 == nil; again++ {
+			for again := 0; again < 6 && d2 == nil; again++ {
 				if again > 0 {
 					for _, p := range cleanup {
 						os.RemoveAll(p)
@@ -624,19 +709,11 @@ func (c *c19) runJob(j *job) {
 			}
 			if o2 != nil && o2.Exit != -99 {
 				if d2 != nil {
-					cls := "acceptance"
-					if d2.Rel != "" {
-						cls = fileClass(j.Tgt.Name, d2.Rel)
-					}
-					tail := j.Tgt.Name
-					if j.Set.Label != "" && !c.plainAlsoDiffers(j) {
-						tail += ":" + j.Set.Label
-					}
-					report("nondeterministic", tail+":"+cls, fmt.Sprintf("two compilations in the same location (%q, same arguments) differ: %s %s", v, d2.Kind, d2.Rel), d2, keep)
+					reportND(fmt.Sprintf("two compilations in the same location (%q, same arguments) differ: %s %s", v, d2.Kind, d2.Rel), d2, keep)
 				} else {
 					what := fmt.Sprintf("compiling the same program with the same options differs when only %q varies (stable within each location): %s %s", v, d.Kind, d.Rel)
 					d.Other = o2
-					report("location-dependent", j.Tgt.Name+":"+v, what, d, refKeep)
+					report("location-dependent", v, what, d, refKeep)
 				}
 			}
 			os.RemoveAll(keep)
@@ -659,19 +736,22 @@ func (c *c19) runJob(j *job) {
 				run.Inconclusive(fmt.Sprintf("watchdog in %q (program %d, %s)", kind, j.P, label))
 			} else if d := compareEmitted(ref, o); d != nil {
 				// is the compilation stable at all?  compile it into a fresh directory again
-				unstable := false
-				for again := 0; again < 3 && !unstable; again++ {
+				var du *difference
+				for again := 0; again < 6 && du == nil; again++ {
 					os.RemoveAll(outA)
 					f := c.compile(j, srcA, rootFile, "out", outA)
-					unstable = f.Exit != -99 && compare(ref, f) != nil
+					if f.Exit != -99 {
+						du = compare(ref, f)
+					}
 				}
-				if unstable {
+				if du != nil {
 					run.Add("dirty_out_differences_attributed_to_nondeterminism", 1)
+					reportND(fmt.Sprintf("two compilations into a fresh directory (same cwd, same arguments) differ: %s %s", du.Kind, du.Rel), du, refKeep)
 					os.RemoveAll(outA)
-					continue // the repetition experiment reports it under C19:nondeterministic
+					continue
 				}
 				what := fmt.Sprintf("a file emitted into an -out directory that held the output of another compilation (%s) differs from the same compilation into a fresh directory: %s %s", kind, d.Kind, d.Rel)
-				report("location-dependent", j.Tgt.Name+":"+kind, what, d, refKeep)
+				report("location-dependent", kind, what, d, refKeep)
 			}
 			os.RemoveAll(outA)
 		}
@@ -982,6 +1062,7 @@ func runC19(tier string) int {
 	close(ch)
 	wg.Wait()
 	iwg.Wait()
+	c.finalize()
 	os.RemoveAll(base)
 	run.Set("rejected_in_reference_location_by_target", c.rejected)
 	return run.Finish()
